@@ -1,4 +1,5 @@
 import XpmVerif.Proofs.Inject
+import XpmVerif.Proofs.IsDefault
 /-! C03, part 3: typing of model values (`VT`) and `canon`; node level (`nodeStream`) and identifier level
     (`rawAt`/`rawId`/`fullId`) injectivity under the ideal-hash model. -/
 namespace XpmVerif.Ident
@@ -142,12 +143,12 @@ def encArgs : List (List Nat × SVal) → List Nat
   | p :: rest => 3 :: p.1 ++ 5 :: encS p.2 ++ encArgs rest
 
 /-- contribution of one argument to the signature: nothing if skipped. -/
-def argSig (cfg : Nat → List Nat) (mt : Nat → Option Bool) (a : Arg) : Option (List Nat × SVal) :=
-  if included mt a then some (a.name, canon cfg mt a.value) else none
+def argSig (cfg : Nat → List Nat) (ceq : Nat → Nat → Bool) (mt : Nat → Option Bool) (a : Arg) : Option (List Nat × SVal) :=
+  if included ceq mt a then some (a.name, canon cfg mt a.value) else none
 
 /-- **the arguments part of a node's signature**: (name, canonical value) of the included arguments, sorted by name. -/
-def sigArgs (cfg : Nat → List Nat) (mt : Nat → Option Bool) (nd : Node) : List (List Nat × SVal) :=
-  (sortBy (fun a b => bytesLe a.name b.name) nd.args).filterMap (argSig cfg mt)
+def sigArgs (cfg : Nat → List Nat) (ceq : Nat → Nat → Bool) (mt : Nat → Option Bool) (nd : Node) : List (List Nat × SVal) :=
+  (sortBy (fun a b => bytesLe a.name b.name) nd.args).filterMap (argSig cfg ceq mt)
 
 /-- the producing-task part of a node stream. -/
 def taskPart (cfg : Nat → List Nat) (self : Nat) (nd : Node) : List Nat :=
@@ -155,18 +156,18 @@ def taskPart (cfg : Nat → List Nat) (self : Nat) (nd : Node) : List Nat :=
   | some t => if t ≠ self then 8 :: 0 :: cfg t else []
   | none => []
 
-theorem flatten_argStream (cfg mt) : ∀ l : List Arg,
-    (l.map (argStream cfg mt)).flatten = encArgs (l.filterMap (argSig cfg mt))
+theorem flatten_argStream (cfg ceq mt) : ∀ l : List Arg,
+    (l.map (argStream cfg ceq mt)).flatten = encArgs (l.filterMap (argSig cfg ceq mt))
   | [] => by simp [encArgs]
   | a :: l => by
-    simp only [map_cons, flatten_cons, filterMap_cons, argStream, argSig, flatten_argStream cfg mt l]
+    simp only [map_cons, flatten_cons, filterMap_cons, argStream, argSig, flatten_argStream cfg ceq mt l]
     split
     · simp [encArgs, encVal_eq_encS_canon]
     · simp
 
 /-- the node stream is a function of the node's signature parts. -/
-theorem nodeStream_eq (cfg mt self) (nd : Node) :
-    nodeStream cfg mt self nd = 0 :: (taskPart cfg self nd ++ (nd.typeId ++ encArgs (sigArgs cfg mt nd))) := by
+theorem nodeStream_eq (cfg ceq mt self) (nd : Node) :
+    nodeStream cfg ceq mt self nd = 0 :: (taskPart cfg self nd ++ (nd.typeId ++ encArgs (sigArgs cfg ceq mt nd))) := by
   simp only [nodeStream, flatten_argStream, sigArgs, taskPart, cons_append, append_assoc]
   rfl
 
@@ -237,19 +238,20 @@ theorem safe_encArgs (A) : safe (encArgs A) := by
 /-- **node level**: two nodes whose classes declare the same argument types whenever they have the same type
     identifier (`hτ`): equal node streams ⇒ same producing-task part, same type identifier, same list of
     (name, signature value) of the included arguments. -/
-theorem nodeStream_inj (τ1 τ2 : List Nat → STy) (cfg1 cfg2 : Nat → List Nat) (mt1 mt2 : Nat → Option Bool)
+theorem nodeStream_inj (τ1 τ2 : List Nat → STy) (cfg1 cfg2 : Nat → List Nat) (ceq1 ceq2 : Nat → Nat → Bool)
+    (mt1 mt2 : Nat → Option Bool)
     (self1 self2 : Nat) (nd1 nd2 : Node)
     (hc1 : ∀ m, wtObj (cfg1 m)) (hc2 : ∀ m, wtObj (cfg2 m))
     (ht1 : noTag nd1.typeId) (ht2 : noTag nd2.typeId)
     (hτ : nd1.typeId = nd2.typeId → τ1 = τ2)
-    (hw1 : WtArgs τ1 (sigArgs cfg1 mt1 nd1)) (hw2 : WtArgs τ2 (sigArgs cfg2 mt2 nd2))
-    (h : nodeStream cfg1 mt1 self1 nd1 = nodeStream cfg2 mt2 self2 nd2) :
+    (hw1 : WtArgs τ1 (sigArgs cfg1 ceq1 mt1 nd1)) (hw2 : WtArgs τ2 (sigArgs cfg2 ceq2 mt2 nd2))
+    (h : nodeStream cfg1 ceq1 mt1 self1 nd1 = nodeStream cfg2 ceq2 mt2 self2 nd2) :
     taskPart cfg1 self1 nd1 = taskPart cfg2 self2 nd2 ∧ nd1.typeId = nd2.typeId ∧
-      sigArgs cfg1 mt1 nd1 = sigArgs cfg2 mt2 nd2 := by
+      sigArgs cfg1 ceq1 mt1 nd1 = sigArgs cfg2 ceq2 mt2 nd2 := by
   rw [nodeStream_eq, nodeStream_eq] at h
   simp only [cons.injEq, true_and] at h
-  have fin : ∀ (hh : nd1.typeId ++ encArgs (sigArgs cfg1 mt1 nd1) = nd2.typeId ++ encArgs (sigArgs cfg2 mt2 nd2)),
-      nd1.typeId = nd2.typeId ∧ sigArgs cfg1 mt1 nd1 = sigArgs cfg2 mt2 nd2 := by
+  have fin : ∀ (hh : nd1.typeId ++ encArgs (sigArgs cfg1 ceq1 mt1 nd1) = nd2.typeId ++ encArgs (sigArgs cfg2 ceq2 mt2 nd2)),
+      nd1.typeId = nd2.typeId ∧ sigArgs cfg1 ceq1 mt1 nd1 = sigArgs cfg2 ceq2 mt2 nd2 := by
     intro hh
     have := str_split ht1 ht2 (safe_encArgs _) (safe_encArgs _) hh
     have e := hτ this.1
@@ -268,12 +270,14 @@ theorem nodeStream_inj (τ1 τ2 : List Nat → STy) (cfg1 cfg2 : Nat → List Na
     have := obj_split hwc1 hwc2 h
     exact ⟨by rw [this.1], fin this.2⟩
 
-/-- typing of a node at the level of model values: every *included* argument has a control-free name and a
-    value of its declared, unambiguous type. -/
+/-- typing of a node at the level of model values: every argument that *can be included* (whatever the
+    comparisons `ceq` of configuration identifiers with those of the defaults give) has a control-free name and
+    a value of its declared, unambiguous type. -/
 def ArgsTyped (τ : List Nat → STy) (mt : Nat → Option Bool) (nd : Node) : Prop :=
-  ∀ a ∈ nd.args, included mt a = true → noTag a.name ∧ ok (τ a.name) ∧ VT mt (τ a.name) a.value
+  ∀ a ∈ nd.args, ∀ ceq, included ceq mt a = true → noTag a.name ∧ ok (τ a.name) ∧ VT mt (τ a.name) a.value
 
-theorem wtArgs_of_typed (τ cfg mt) (hc : ∀ m, wtObj (cfg m)) (nd : Node) (h : ArgsTyped τ mt nd) : WtArgs τ (sigArgs cfg mt nd) := by
+theorem wtArgs_of_typed (τ cfg ceq mt) (hc : ∀ m, wtObj (cfg m)) (nd : Node) (h : ArgsTyped τ mt nd) :
+    WtArgs τ (sigArgs cfg ceq mt nd) := by
   intro p hp
   simp only [sigArgs, mem_filterMap, argSig] at hp
   obtain ⟨a, ha, hpa⟩ := hp
@@ -282,20 +286,11 @@ theorem wtArgs_of_typed (τ cfg mt) (hc : ∀ m, wtObj (cfg m)) (nd : Node) (h :
   · rename_i hinc
     simp only [Option.some.injEq] at hpa
     subst hpa
-    have := h a ha' hinc
+    have := h a ha' ceq hinc
     exact ⟨this.1, this.2.1, wt_canon cfg mt hc _ _ this.2.2⟩
   · simp at hpa
 
 /-! ### identifier level (ideal hash: `H` injective, a digest is one token `256 + d`) -/
-
-/-- how `rawAt` encodes a reference below node `n` on `stack`. -/
-def cfgAt {D : Type} (hc : HC D) (g : Graph) (fuel : Nat) (stack : List Nat) : Nat → List Nat :=
-  fun m => match relIndex stack m with
-    | some k => 11 :: pack8 k
-    | none => hc.emb (rawAt hc g fuel stack m)
-
-theorem rawAt_succ {D : Type} (hc : HC D) (g : Graph) (fuel : Nat) (stack : List Nat) (n : Nat) :
-    rawAt hc g (fuel + 1) stack n = hc.H (nodeStream (cfgAt hc g fuel (n :: stack)) g.mt n (g.node n)) := rfl
 
 theorem relIndex_le : ∀ (stack : List Nat) (m k : Nat), relIndex stack m = some k → k ≤ stack.length
   | [], _, _, h => by simp [relIndex] at h
@@ -319,8 +314,8 @@ theorem wtObj_cfgAt (hc : HC Nat) (hemb : ∀ d, hc.emb d = [256 + d]) (g : Grap
 /-- **one step of the raw identifier**: equal raw identifiers come from equal node streams. -/
 theorem rawAt_stream (hc : HC Nat) (hinj : ∀ a b, hc.H a = hc.H b → a = b) (g1 g2 : Graph) (f1 f2 : Nat)
     (s1 s2 : List Nat) (n1 n2 : Nat) (h : rawAt hc g1 (f1 + 1) s1 n1 = rawAt hc g2 (f2 + 1) s2 n2) :
-    nodeStream (cfgAt hc g1 f1 (n1 :: s1)) g1.mt n1 (g1.node n1)
-      = nodeStream (cfgAt hc g2 f2 (n2 :: s2)) g2.mt n2 (g2.node n2) :=
+    nodeStream (cfgAt hc g1 f1 (n1 :: s1)) (ceqAt hc g1 f1 (n1 :: s1)) g1.mt n1 (g1.node n1)
+      = nodeStream (cfgAt hc g2 f2 (n2 :: s2)) (ceqAt hc g2 f2 (n2 :: s2)) g2.mt n2 (g2.node n2) :=
   hinj _ _ h
 
 /-- **raw identifier ⇒ signature, one level**: at any depth of the computation. -/
@@ -333,12 +328,13 @@ theorem rawAt_inj_step (hc : HC Nat) (hinj : ∀ a b, hc.H a = hc.H b → a = b)
     (h : rawAt hc g1 (f1 + 1) s1 n1 = rawAt hc g2 (f2 + 1) s2 n2) :
     taskPart (cfgAt hc g1 f1 (n1 :: s1)) n1 (g1.node n1) = taskPart (cfgAt hc g2 f2 (n2 :: s2)) n2 (g2.node n2) ∧
     (g1.node n1).typeId = (g2.node n2).typeId ∧
-    sigArgs (cfgAt hc g1 f1 (n1 :: s1)) g1.mt (g1.node n1) = sigArgs (cfgAt hc g2 f2 (n2 :: s2)) g2.mt (g2.node n2) :=
-  nodeStream_inj τ1 τ2 _ _ _ _ _ _ _ _
+    sigArgs (cfgAt hc g1 f1 (n1 :: s1)) (ceqAt hc g1 f1 (n1 :: s1)) g1.mt (g1.node n1)
+      = sigArgs (cfgAt hc g2 f2 (n2 :: s2)) (ceqAt hc g2 f2 (n2 :: s2)) g2.mt (g2.node n2) :=
+  nodeStream_inj τ1 τ2 _ _ _ _ _ _ _ _ _ _
     (wtObj_cfgAt hc hemb g1 f1 _ (by simpa using hs1)) (wtObj_cfgAt hc hemb g2 f2 _ (by simpa using hs2))
     ht1 ht2 hτ
-    (wtArgs_of_typed _ _ _ (wtObj_cfgAt hc hemb g1 f1 _ (by simpa using hs1)) _ hw1)
-    (wtArgs_of_typed _ _ _ (wtObj_cfgAt hc hemb g2 f2 _ (by simpa using hs2)) _ hw2)
+    (wtArgs_of_typed _ _ _ _ (wtObj_cfgAt hc hemb g1 f1 _ (by simpa using hs1)) _ hw1)
+    (wtArgs_of_typed _ _ _ _ (wtObj_cfgAt hc hemb g2 f2 _ (by simpa using hs2)) _ hw2)
     (rawAt_stream hc hinj _ _ _ _ _ _ _ _ h)
 
 /-! ### full identifier -/
